@@ -101,6 +101,7 @@ type session struct {
 	nEv       int
 	lastStep  bool // the last Do called Step
 	lastPanic bool
+	kind      string // case kind, "pll.history" unless set
 }
 
 func newSession() *session {
@@ -164,7 +165,11 @@ func (s *session) emit(extra ...string) {
 			ts = append(ts, t)
 		}
 	}
-	w.Case("pll.history", strings.Join(ts, ","), lib.V(s.args...), lib.V(s.outs...))
+	kind := s.kind
+	if kind == "" {
+		kind = "pll.history"
+	}
+	w.Case(kind, strings.Join(ts, ","), lib.V(s.args...), lib.V(s.outs...))
 }
 
 func wbits(f float64) uint64 { return math.Float64bits(f) }
@@ -459,6 +464,21 @@ func scripted() {
 	}
 	ms := int64(1000000)
 	b := reading{1767225600, 0}
+	// the full "never a negative or zero duration" clause, also beyond the 2^32 s of the theorem:
+	// more than 9223372036 s between two tracking updates (time.Time.Sub saturates at 292 years)
+	{
+		s := newSession()
+		s.kind = "pll.longgap"
+		now := reading{0, 0}
+		s.do(update{now, 0, 1000, wbits(10)})
+		now = now.add(3 * second)
+		s.do(update{now, 0, 1000, wbits(10)})
+		now = now.add(7 * second)
+		s.do(update{now, 0, 1000, wbits(10)})
+		now = reading{9223372047, 0}
+		s.do(update{now, 0, 1000, wbits(10)})
+		s.emit("extreme")
+	}
 	// start-up, step by the offset, tracking with saturating offsets at whole-second gaps
 	run(b, 0, []st{{0, false, 10 * ms, 10}, {second, false, 10 * ms, 10}, {2 * second, false, 10 * ms, 10}, {second, true, 0, 10},
 		{3 * second, false, 0, 10}, {7 * second, false, 0, 10}, {3 * second / 2, false, second, 10}, {2 * second, false, -second, 10},
